@@ -197,13 +197,8 @@ class Circuit:
         circuit object to gradually keep track of its properties (gate count,
         qubit indices...).
         """
-        # Add a copy of the gate to the list of gates
+        # Make a copy of the gate
         gate = Gate(g.name, g.target, g.control, g.parameter, g.is_variational)
-        self._gates.append(gate)
-
-        # A circuit is variational as soon as a variational gate is added to it
-        if gate.is_variational:
-            self._variational_gates.append(gate)
 
         def check_index_valid(index):
             """If circuit size was specified at instantiation, check that qubit
@@ -214,10 +209,20 @@ class Circuit:
                     raise ValueError(f"Qubit index beyond expected maximal index ({self._qubits_simulated-1})\n "
                                      f"Gate = {gate}")
 
-        # Track qubit indices
+        # Check all qubit indices before modifying the circuit, so that a rejected gate leaves it unchanged
         all_involved_qubits = gate.target if gate.control is None else gate.target + gate.control
         for q in all_involved_qubits:
             check_index_valid(q)
+
+        # Add the copy of the gate to the list of gates
+        self._gates.append(gate)
+
+        # A circuit is variational as soon as a variational gate is added to it
+        if gate.is_variational:
+            self._variational_gates.append(gate)
+
+        # Track qubit indices
+        for q in all_involved_qubits:
             self._qubit_indices.add(q)
 
         # Keep track of the total gate count
